@@ -44,7 +44,8 @@ def oracle_c10(h, acts, fail_index):
     for tok in sessions:
         e = h.cp_events.get(tok, [0, 0])
         if e[1] != 1:
-            out.append(('paging-session.close-not-errored' if h.fail_kind == 'close' else 'paging-session.count',
+            out.append(('paging-session.close-not-errored' if h.fail_kind == 'close' else
+                        ('paging-session.not-errored' + ('.no-request-pending' if not pending else '') if e[1] == 0 else 'paging-session.count'),
                         'paging session %r alive at the %s got %d error notifications' % (tok, h.fail_kind, e[1])))
     late = sorted(h.conn.__dict__['_requests_real'].keys())
     if late:
@@ -179,6 +180,18 @@ def run(ctx):
                     hs.append(('directed:' + kind, cfg, seq, h))
                     ctx.count('fault_kind', 'directed-' + kind)
                     judge(ctx, 'directed', cfg, seq, h, 4, kind, raising, control)
+    # a continuous paging session is the ONLY outstanding work (its initial request was answered): every failure cause
+    cp_only = [{'a': 'query', 'r': 1, 'in_cb': [{'a': 'cp_new', 'sess': 101}, {'a': 'return'}]}, {'a': 'respond_tok', 'r': 1},
+               {'a': 'respond', 'i': 0, 'd': 'CpPage'}]
+    cp_plus = cp_only + [{'a': 'query', 'r': 2, 'in_cb': [{'a': 'return'}]}]
+    for base_acts, nm in ((cp_only, 'paging-session-only'), (cp_plus, 'paging-session+request')):
+        for kind in KINDS:
+            for control in ((False, True) if kind.startswith('hb') else (False,)):
+                cfg = dict(n_init=4, max_in_flight=6, thr=3)
+                h, seq = with_fault(cfg, base_acts, len(base_acts), kind, (), control)
+                hs.append(('directed:' + nm + ':' + kind, cfg, seq, h))
+                ctx.count('fault_kind', nm + '-' + h.fail_kind)
+                judge(ctx, 'directed', cfg, seq, h, len(base_acts), kind, (), control)
     # the refutation witness of the send/defunct race, on the real code
     w1 = [{'a': 'query', 'r': 7, 'in_cb': [{'a': 'return'}], 'after_check': [{'a': 'defunct'}]}]
     cfg = dict(n_init=4, max_in_flight=4, thr=2)
